@@ -237,6 +237,11 @@ theorem validators_map (env : Env) (c : Cls) (kw : Kw) (sub : Sub) (v : JVal) :
     simp only [additionalItemsCheck, containsCheck, SubG.map, List.length_map]
     cases sub.contains <;> cases sub.addItems <;> rfl
   | obj kvs =>
+    have hA : additionalPropsCheck env c kw (sub.map Res.verdict) kvs = additionalPropsCheck env c kw sub kvs := by
+      unfold additionalPropsCheck
+      cases c <;> simp only [SubG.map, List.any_map, Function.comp_def] <;> cases sub.addProps <;> rfl
+    dsimp only
+    rw [hA]
     simp only [propNamesCheck, depElemsCheck, depNamesOf, SubG.map, List.map_map, List.filterMap_map]
     cases sub.propNames <;> simp [optCheck, V.all, List.foldr_map, Function.comp_def]
   | _ => rfl
